@@ -423,8 +423,13 @@ def capsulebox_probe(ck, lib, n):
     else:
       ck.label('capsulebox-probe:' + (r.note or r.mode))
       return
+    td = so.pair_true_distance(w, 0, 1)
+    if td is None or td <= 1e-3:
+      # overlapping capsule / box (no closed form; the analytic collider's depth and even its sign are unreliable when
+      # the capsule axis pierces the box): narrow-phase accuracy is C13/C15's subject, not judged by this probe
+      ck.label('capsulebox-probe:overlapping(not judged)')
+      return
     if not ok:
-      td = so.pair_true_distance(w, 0, 1)
       full = '%s: %s (true distance %r, cutoff %g)\n%s' % (el, msg, td, cutoff, xml)
       undetected = (got[0] == cutoff) if el == 'distance' else bool(np.all(got == 0))
       if r.level == 'oracle' and td is not None and 1e-3 < td < cutoff - 1e-3 and cutoff > 1 and undetected:
